@@ -524,6 +524,77 @@ func hugeArrays(c *vm.Ctx) {
 	}
 }
 
+// wrongDataLength: a frame of the compression layer whose data-length field disagrees with what its (genuine,
+// complete) zlib stream inflates to. Larger and smaller are both inconsistent: a reader that stops after the declared
+// number of bytes hands the program a cut packet as if it were whole.
+func wrongDataLength(c *vm.Ctx, r *vm.Rand) {
+	th := []int{0, 1, 64, 256}[r.Intn(4)]
+	id := int32(r.Intn(300))
+	n := th + r.Range(8, 400)
+	payload := r.Bytes(n)
+	if r.Bool() {
+		for i := range payload {
+			payload[i] = byte(i % 5)
+		}
+	}
+	good := refwire.BuildFrame(id, payload, 0, true, 6) // always the zlib form
+	f, err := refwire.ParseFrame(good, 0)
+	if err != nil || f.Form != "zlib" {
+		c.Inconclusive("reference writer did not produce a zlib frame")
+		return
+	}
+	_, k, _ := refwire.DecVarInt(good)
+	_, k2, _ := refwire.DecVarInt(good[k:])
+	z := good[k+k2:]
+	trueLen := len(refwire.EncVarInt(id)) + n
+	for _, dl := range []int{trueLen - 1, trueLen - 7, max(th, 1), max(th, len(refwire.EncVarInt(id))), trueLen + 1, trueLen + 50} {
+		if dl == trueLen || dl < 1 || dl < th {
+			continue
+		}
+		dlb := refwire.EncVarInt(int32(dl))
+		in := append(refwire.RawFrame(int32(len(dlb)+len(z)), dlb, z), 0x01, 0x00) // a following frame's first bytes
+		wit := func() any {
+			return map[string]any{"threshold": th, "inflated_size": trueLen, "declared_data_length": dl, "frame_hex": vm.Hex(in)}
+		}
+		for _, via := range []string{"Packet.UnPack", "Conn.ReadPacket"} {
+			var p pk.Packet
+			var e error
+			if c.Guard("decode/wrong-data-length/"+via, wit, func() {
+				if via == "Packet.UnPack" {
+					e = p.UnPack(rd(in), th)
+				} else {
+					conn := mcnet.WrapConn(&pipeEnd{r: rd(in)})
+					conn.SetThreshold(th)
+					e = conn.ReadPacket(&p)
+				}
+			}) {
+				continue
+			}
+			c.Eval(vm.HashStr("wrong-dl", via, fmt.Sprint(th, trueLen, dl)), true)
+			if e == nil {
+				cls := "smaller-than-inflated"
+				if dl > trueLen {
+					cls = "larger-than-inflated"
+				}
+				c.Violation("decode/inconsistent-data-length-accepted/"+cls, fmt.Sprintf("%s returned success (id %d, %d bytes) for a frame declaring %d uncompressed bytes whose zlib stream inflates to %d", via, p.ID, len(p.Data), dl, trueLen), wit())
+				continue
+			}
+			c.Cover("wrong-data-length.rejected")
+		}
+	}
+}
+
+type pipeEnd struct{ r io.Reader }
+
+func (p *pipeEnd) Read(b []byte) (int, error)       { return p.r.Read(b) }
+func (p *pipeEnd) Write(b []byte) (int, error)      { return len(b), nil }
+func (p *pipeEnd) Close() error                     { return nil }
+func (p *pipeEnd) LocalAddr() net.Addr              { return nil }
+func (p *pipeEnd) RemoteAddr() net.Addr             { return nil }
+func (p *pipeEnd) SetDeadline(time.Time) error      { return nil }
+func (p *pipeEnd) SetReadDeadline(time.Time) error  { return nil }
+func (p *pipeEnd) SetWriteDeadline(time.Time) error { return nil }
+
 // bigPayloads: strings and byte arrays of 64 KiB .. 2 MiB, which a peer may send inside the frame limit, whole and
 // with only a part of the declared bytes present. Readers that grow their buffer as data arrives have one branch per
 // growth step; the short hostile inputs above never leave the first.
@@ -1022,6 +1093,10 @@ func run(c *vm.Ctx) {
 	sr := c.Rand("sizes")
 	for i := 0; i < c.Scale(400, 8000); i++ {
 		inconsistentSizes(c, sr)
+	}
+	wr := c.Rand("wrong-data-length")
+	for i := 0; i < c.Scale(200, 4000); i++ {
+		wrongDataLength(c, wr)
 	}
 	cr := c.Rand("commands")
 	for i := 0; i < c.Scale(40, 800); i++ {
